@@ -39,7 +39,7 @@ PROPS = {
     ),
     "C08": dict(
         cases_mod="CasesText", check_fn="check_C08x",
-        rule="constructors over boundary products (hour 0..25, 2^31, 2^32-1; seconds around 86400; nanoseconds around 86400e9 and u64 extremes; thorough: all 86400 seconds); times of day x offsets x unit x u32 counts for add_/sub_; pairs of Times for + and -; Durations up to u64::MAX s; getters under offsets; Time::from(DateTime) incl. instants before 0001-01-01; Time::parse / Time::from_str on texts whose fields sit at the edges of their ranges (several sub-second fields next to 23:59:59, 12/24-hour fields with markers, zones). Non-trivial: count != 0, or any non-add case.",
+        rule="constructors over boundary products (hour 0..25, 2^31, 2^32-1; seconds around 86400; nanoseconds around 86400e9 and u64 extremes; thorough: all 86400 seconds); times of day x offsets x unit x u32 counts for add_/sub_; pairs of Times for + and -; Durations up to u64::MAX s; getters under offsets; Time::from(DateTime) incl. instants before 0001-01-01; Time::parse / Time::from_str on texts whose fields sit at the edges of their ranges (several sub-second fields next to 23:59:59, 12/24-hour fields with markers, zones); set_*, clear_until_*, set_offset, as_offset of Times (oracles of C09/C10 plus: result inside the day). Non-trivial: count != 0, or any non-add case.",
         explanation="Theorems C08_* hold for every Time, count, unit and every history of operations; figures describe the differential run.",
         trusted_base=TB_COMMON, assumptions=ASSUME_COMMON,
     ),
